@@ -157,11 +157,26 @@ func HarnessPrecedence(src int) {
 
 // HarnessTwoKeys: two different keys overridden at once, each from the environment, the file or
 // both (srcA, srcB as in HarnessPrecedence, not 0): each gets its own value, every other key its default.
-func HarnessTwoKeys(srcA int, srcB int) {
+func HarnessTwoKeys(srcA int, srcB int) { twoKeys(srcA, srcB, false) }
+
+// HarnessKeyAndFixedKey: the slice of HarnessTwoKeys in which the second key is a fixed one (the
+// first leaf key, or the second if the first is the chosen one): a key overridden from one source
+// while the other source provides an unrelated key.
+func HarnessKeyAndFixedKey(srcA int, srcB int) { twoKeys(srcA, srcB, true) }
+
+func twoKeys(srcA int, srcB int, fixedB bool) {
 	vhcfg.Reset()
 	leaves := vhcfg.Leaves()
 	a := leaves[vh.Choose(len(leaves))]
-	b := leaves[vh.Choose(len(leaves))]
+	var b vhcfg.Leaf
+	if fixedB {
+		b = leaves[0]
+		if a.Key == b.Key {
+			b = leaves[1]
+		}
+	} else {
+		b = leaves[vh.Choose(len(leaves))]
+	}
 	if a.Key == b.Key || a.Kind < 0 || b.Kind < 0 {
 		return
 	}
